@@ -564,7 +564,7 @@ HELPERS = ("optimal_steps_binomial", "optimal_steps_mixed",
 class C15(Base):
     ID = "C15"
     TECHNIQUE = ('deterministic simulation: multi-tenant worlds under a seeded cooperative scheduler and a seeded pre-emptive scheduler (threads released one at a time at sys.settrace line events; random hand-overs, whole-call excursions and pinned sweeps over the lines of a constructor), streams compared with pristine-process baselines')
-    EXPECTED_PROBES = ('c15_baselines', 'c15_observer_pairs', 'e3_worlds', 'e3_excursions', 'e3_pinned_excursions')
+    EXPECTED_PROBES = ('c15_baselines', 'c15_observer_pairs', 'e3_worlds', 'e3_excursions', 'e3_pinned_excursions', 'c15_late_finalised_slots')
     FORK_PER_RUN = True
     SIZES = {"quick": (32, 24), "thorough": (128, 64)}
     SLOTS = {"quick": (2, 6), "thorough": (2, 40)}
@@ -783,8 +783,26 @@ class C15(Base):
             calls.append(op)
         faults = {"obs": rng.choice((0.0, 0.1, 0.3)), "obs_before": 0.5,
                   "call": 0.15}
+        if rng.random() < self.LATE_WORLDS:
+            # late-finalisation world: online schedules are driven by hand
+            # (the executor keeps asking for Forwards until an injected
+            # finalize(k) is accepted), with observer reads in between; the
+            # judge for these is the second execution of the same history
+            # without the reads (a slot that saw an injected finalize is not
+            # compared with the plain-executor baseline)
+            slots = [(cfg, passes, "manual" if is_online(cfg["cls"])
+                      else style) for cfg, passes, style in slots]
+            while not any(is_online(c["cls"]) for c, _, _ in slots):
+                cfg = draw_cfg(rng, rng.choice((
+                    "None", "SingleMemory", "SingleDiskCopy",
+                    "SingleDiskMove", "TwoLevel")), nmax, rfmax)
+                slots.append((cfg, draw_passes(rng, cfg, 2), "manual"))
+            faults.update(obs=rng.choice((0.2, 0.35)), fin=0.12)
         return Plan(slots, faults=faults, interleave=True, overrun=1,
                     calls=calls, conclude_obs=1)
+
+    #: share of cooperative worlds with hand-driven online schedules
+    LATE_WORLDS = 0.1
 
     WORLD_KW = {"monitor_counters": False}
 
@@ -800,6 +818,9 @@ class C15(Base):
         for s in w.all_slots():
             if crowd and isinstance(s.sid, int) and s.sid > 3:
                 continue        # crowd members: a few are baselined
+            if s.fins or s.style == "manual":
+                w.probe("c15_late_finalised_slots")
+                continue        # judged by the observer pair below
             key = json.dumps([s.cfg, s.passes_wanted], sort_keys=True)
             if key not in memo:
                 res = self.helper.ask(
